@@ -241,6 +241,27 @@ def run(prop, tier, seed, out):
                             out.violation("registry replay %s: %s: expected %s, real broker %s" % (tag, m["what"], json.dumps(m["expected"])[:200], json.dumps(m["observed"])[:200]), m)
                     if r["by_prop"].get(prop, 0) and not out.violations:
                         out.violation("registry replay %s: %d mismatches attributed to %s" % (tag, r["by_prop"][prop], prop), (r["mismatches"] or [])[:3])
+            # ---- C03 with the Broker's own lock in the picture: Sends whose nodes call back into the Broker (nested Send, a
+            # node registering something, the library's gated filter flushing through the Broker) while other goroutines
+            # write; Locks.tla (checked by C12) says every such Send returns when no Broker lock is held across Process
+            if prop == "C03":
+                lp = scr.path("locks-send.json")
+                p = run_vh(vh, ["locks-run", "-only", "send,mixed", "-out", lp, "-reps", "1" if quick else "4"], timeout=900)
+                if p.returncode != 0:
+                    if "panic" in p.stderr or "fatal error" in p.stderr:
+                        out.violation("process died while nodes re-entered the Broker from Process: " + p.stderr[:300], {"stderr": p.stderr[-3000:]})
+                    else:
+                        raise Broken("locks-run failed: " + p.stderr[-1500:])
+                else:
+                    lres = json.load(open(lp))["results"]
+                    if len(lres) < 8:
+                        raise Broken("too few re-entrant Send scenarios ran")
+                    for r in lres:
+                        if not r["returned"] and not r.get("hung", "").startswith("(not reproduced"):
+                            out.violation("Send never returned although its context was not cancelled and every node returns: scenario %s; goroutines parked on Broker locks: %s"
+                                          % (r["scenario"]["name"], r.get("hung", "")[:400]), r)
+                    scen_n += len(lres)
+                    out.coverage["reentrant_send_scenarios"] = len(lres)
             # ---- the design checks
             for f in futs:
                 name, r = f.result()
